@@ -286,6 +286,7 @@ func cmdCheck(args []string) int {
 		return 2
 	}
 	loadWall := time.Since(t0)
+	replayProg = prog
 
 	results := make([]*harnessResult, len(specs))
 	var wg sync.WaitGroup
@@ -565,12 +566,18 @@ type replayFile struct {
 	Expect   sx.Finding    `json:"expect"`
 	Inputs   []sx.InputVal `json:"inputs"`
 	Params   map[string]string `json:"params,omitempty"`
+	Mode     string            `json:"mode"` // "native" (go test against the real build) | "engine" (concrete re-execution in gosx with the same stubs)
+	Opts     map[string]string `json:"opts,omitempty"`
 }
 
 var curTier = "quick"
 
 func writeReplayFile(id string, h *harnessSpec, f *sx.Finding) string {
-	rf := replayFile{Property: id, Pkg: h.RelDir, Func: h.Func, Expect: *f, Inputs: f.Inputs, Params: h.options(curTier).Params}
+	mode := h.Opts["replay"]
+	if mode == "" {
+		mode = "native"
+	}
+	rf := replayFile{Property: id, Pkg: h.RelDir, Func: h.Func, Expect: *f, Inputs: f.Inputs, Params: h.options(curTier).Params, Mode: mode, Opts: h.Opts}
 	b, _ := json.MarshalIndent(rf, "", " ")
 	sum := sha256.Sum256(b)
 	dir := filepath.Join(verifDir, "replays")
@@ -673,6 +680,9 @@ func runReplay(path string, verbose bool) (verdict, output string) {
 	var rf replayFile
 	if err := json.Unmarshal(b, &rf); err != nil {
 		return "error: " + err.Error(), ""
+	}
+	if rf.Mode == "engine" {
+		return engineReplay(&rf)
 	}
 	abs, _ := filepath.Abs(path)
 	src := fmt.Sprintf(`package %s
@@ -799,4 +809,57 @@ func assumptionsFor(id string, results []*harnessResult) []string {
 		}
 	}
 	return as
+}
+
+var replayProg *sx.Program
+
+// engineReplay re-executes the harness inside gosx with every labelled input
+// pinned to the recorded value (same SSA of /repo's working tree, same
+// environment stubs) and reports whether the same obligation fails.
+func engineReplay(rf *replayFile) (verdict, output string) {
+	prog := replayProg
+	if prog == nil {
+		ov, err := buildOverlay(false)
+		if err != nil {
+			return "error: " + err.Error(), ""
+		}
+		pats := []string{"github.com/free5gc/chf/zzvx", "./" + rf.Pkg}
+		if v := rf.Opts["pkgs"]; v != "" {
+			pats = append(pats, strings.Split(v, ",")...)
+		}
+		prog, err = sx.Load(repoDir, ov, pats...)
+		if err != nil {
+			return "error: " + err.Error(), ""
+		}
+	}
+	h := &harnessSpec{RelDir: rf.Pkg, Func: rf.Func, Opts: rf.Opts}
+	if h.Opts == nil {
+		h.Opts = map[string]string{}
+	}
+	opt := h.options(curTier)
+	opt.Params = rf.Params
+	opt.Fixed = map[string][]uint64{}
+	for _, in := range rf.Inputs {
+		opt.Fixed[in.Label] = in.Vals
+	}
+	opt.MaxSeconds = 120
+	fn := prog.Func("github.com/free5gc/chf/"+filepath.ToSlash(rf.Pkg), rf.Func)
+	if fn == nil {
+		return "error: harness function not found", ""
+	}
+	e := sx.NewExplorer(prog, rf.Func, opt)
+	e.Run(fn)
+	e.Close()
+	var sb strings.Builder
+	for _, k := range e.Order {
+		f := e.Findings[k]
+		fmt.Fprintf(&sb, "concrete re-execution: %s %q @ %s\n", f.Kind, f.Name, f.Site)
+		if f.Kind == rf.Expect.Kind && f.Name == rf.Expect.Name {
+			verdict = "reproduced"
+		}
+	}
+	if verdict == "" {
+		verdict = "not reproduced"
+	}
+	return verdict, sb.String()
 }
